@@ -85,28 +85,29 @@ def prepare_program(tree):
 _CMP = {ast.NotEq: "≠", ast.Eq: "=", ast.Lt: "<", ast.LtE: "≤", ast.Gt: ">", ast.GtE: "≥"}
 
 
-def _bool_expr(node, names):
+def _bool_expr(node, names, ty="Int", rename=None):
     if isinstance(node, ast.BoolOp):
         op = "&&" if isinstance(node.op, ast.And) else "||"
-        return "(" + f" {op} ".join(_bool_expr(v, names) for v in node.values) + ")"
+        return "(" + f" {op} ".join(_bool_expr(v, names, ty, rename) for v in node.values) + ")"
     if isinstance(node, ast.UnaryOp) and isinstance(node.op, ast.Not):
-        return f"(!{_bool_expr(node.operand, names)})"
+        return f"(!{_bool_expr(node.operand, names, ty, rename)})"
     if isinstance(node, ast.Compare):
         terms = [node.left] + list(node.comparators)
         parts = []
         for l, op, r in zip(terms, node.ops, terms[1:]):
             if type(op) not in _CMP:
                 raise T.TranslateError("unsupported comparison operator")
-            parts.append(f"decide ({_int_term(l, names)} {_CMP[type(op)]} {_int_term(r, names)})")
+            parts.append(f"decide ({_int_term(l, names, ty, rename)} {_CMP[type(op)]} {_int_term(r, names, ty, rename)})")
         return "(" + " && ".join(parts) + ")"
     raise T.TranslateError(f"unsupported boolean expression {ast.dump(node)[:80]}")
 
 
-def _int_term(node, names):
+def _int_term(node, names, ty="Int", rename=None):
     if isinstance(node, ast.Name) and node.id in names:
-        return node.id
+        return (rename or {}).get(node.id, node.id)
     if isinstance(node, ast.Constant) and isinstance(node.value, int) and not isinstance(node.value, bool):
-        return f"({node.value} : Int)"
+        if ty == "Nat" and node.value < 0: raise T.TranslateError("negative constant in a count comparison")
+        return f"({node.value} : {ty})"
     raise T.TranslateError(f"unsupported term in validity predicate: {ast.dump(node)[:60]}")
 
 
@@ -152,7 +153,12 @@ def hard_edges_guard(tree):
 
     def flag_loop(stmts):
         for st in stmts:
-            if isinstance(st, ast.For) and _is_attr(st.iter, "self", "id_edges") and len(st.body) == 1 \
+            over_all_edges = _is_attr(st.iter, "self", "id_edges") if isinstance(st, ast.For) else False
+            if isinstance(st, ast.For) and isinstance(st.iter, ast.Call) and isinstance(st.iter.func, ast.Name) and st.iter.func.id == "range" \
+                    and len(st.iter.args) == 1 and isinstance(st.iter.args[0], ast.Call) and isinstance(st.iter.args[0].func, ast.Name) \
+                    and st.iter.args[0].func.id == "len" and _is_attr(st.iter.args[0].args[0], "self", "edges"):
+                over_all_edges = True                                  # `range(len(self.edges))` is what `self.id_edges` returns
+            if isinstance(st, ast.For) and over_all_edges and len(st.body) == 1 \
                     and isinstance(st.body[0], ast.Assign) and isinstance(st.body[0].targets[0], ast.Subscript) \
                     and isinstance(st.body[0].value, ast.Constant) and st.body[0].value.value is True:
                 return True
@@ -252,6 +258,75 @@ def corner_appends(tree_md, tree_dc):
     if elem_ok is None or adj_ok is None:
         raise T.TranslateError("cell_faces._elem.append(<face id>) / cell_faces._adj.append(<cell index>) not recognised")
     return {"face": fc, "cell": cc, "routing": routing, "cellFaceElem": elem_ok, "cellFaceAdj": adj_ok}
+
+
+# ------------------------------------------------------------------------------------------------------------
+def _count_role(value, container):
+    """len(self.<container>) / len(self.<container>._elem) -> nelem ; len(..._adj) -> nadj ;
+    sum([len(x) for x in self.<elements>]) -> total"""
+    if isinstance(value, ast.Call) and isinstance(value.func, ast.Name) and value.func.id == "len" and len(value.args) == 1:
+        a = value.args[0]
+        if _is_attr(a, "self", container): return "nelem"
+        if isinstance(a, ast.Attribute) and _is_attr(a.value, "self", container):
+            return {"_elem": "nelem", "_adj": "nadj"}.get(a.attr)
+    if isinstance(value, ast.Call) and isinstance(value.func, ast.Name) and value.func.id == "sum" and len(value.args) == 1 \
+            and isinstance(value.args[0], (ast.ListComp, ast.GeneratorExp)):
+        lc = value.args[0]
+        if isinstance(lc.elt, ast.Call) and isinstance(lc.elt.func, ast.Name) and lc.elt.func.id == "len" and len(lc.generators) == 1 \
+                and isinstance(lc.generators[0].iter, ast.Attribute) and isinstance(lc.generators[0].iter.value, ast.Name) \
+                and lc.generators[0].iter.value.id == "self":
+            return "total:" + lc.generators[0].iter.attr
+    return None
+
+
+def _resets(stmts, container):
+    got = set()
+    for st in stmts:
+        if isinstance(st, ast.Assign) and isinstance(st.targets[0], ast.Attribute) and _is_attr(st.targets[0].value, "self", container) \
+                and isinstance(st.value, ast.List) and not st.value.elts:
+            got.add(st.targets[0].attr)
+    return got
+
+
+def corner_guards(tree):
+    """regeneration criteria of _generate_face_corners / _generate_cell_corners and the resets of the regenerating
+    branch; _generate_cell_faces must rebuild unconditionally (resets at top level)"""
+    out = {}
+    for fname, container, elements in (("_generate_face_corners", "face_corners", "faces"), ("_generate_cell_corners", "cell_corners", "cells")):
+        fn = T.find_def(tree, "RawMeshData." + fname)
+        roles, guard = {}, None
+        for st in _body(fn):
+            if isinstance(st, ast.Assign) and isinstance(st.targets[0], ast.Name):
+                role = _count_role(st.value, container)
+                if role is None: raise T.TranslateError(f"{fname}: unrecognised count `{st.targets[0].id} = ...`")
+                if role.startswith("total:"):
+                    if role != "total:" + elements: raise T.TranslateError(f"{fname}: the total is not taken over self.{elements}")
+                    role = "total"
+                roles[st.targets[0].id] = role
+            elif isinstance(st, ast.If) and guard is None and not st.orelse:
+                guard = st
+            else:
+                raise T.TranslateError(f"{fname}: unrecognised statement {ast.dump(st)[:80]}")
+        if guard is None: raise T.TranslateError(f"{fname}: no regeneration guard")
+        expr = _bool_expr(guard.test, set(roles), "Nat", roles)
+        inner = None
+        body = guard.body
+        if len(body) == 1 and isinstance(body[0], ast.If) and body[0].orelse:      # `if <adjacency only>: ... else: <both>`
+            inner = _bool_expr(body[0].test, set(roles), "Nat", roles)
+            body = body[0].orelse
+        rs = _resets(body, container)
+        if rs != {"_elem", "_adj"}:
+            raise T.TranslateError(f"{fname}: the regenerating branch does not reset both _elem and _adj (found {sorted(rs)})")
+        if not any(isinstance(x, ast.For) for x in body):
+            raise T.TranslateError(f"{fname}: no regeneration loop after the resets")
+        out[container] = (expr, inner)
+    fn = T.find_def(tree, "RawMeshData._generate_cell_faces")
+    top = _body(fn)
+    if _resets(top, "cell_faces") == {"_elem", "_adj"}:
+        out["cell_faces_always"] = True
+    else:
+        raise T.TranslateError("_generate_cell_faces: `self.cell_faces._elem = []` / `_adj = []` are not unconditional first-level statements")
+    return out
 
 
 # ------------------------------------------------------------------------------------------------------------
@@ -378,6 +453,11 @@ def translate_structure():
     def s_corner():
         out["corner"] = corner_appends(md, dc); return out["corner"]
 
+    def s_guards():
+        out["guards"] = corner_guards(md)
+        return {"face_corners": out["guards"]["face_corners"][0], "cell_corners": list(out["guards"]["cell_corners"]),
+                "cell_faces": "rebuilt unconditionally"}
+
     def s_dim():
         rows, d = dimension_table(md); out["dim"] = (rows, d)
         return {"chain": rows, "else": d}
@@ -392,6 +472,7 @@ def translate_structure():
     run("mesh_data.py:_prepare_edges.is_valid (validity predicate: operators and bounds)", s_valid)
     run("mesh_data.py:_complete_edges_from_faces (hard_edges guard, flags before completion)", s_hard)
     run("mesh_data.py/_data_container.py: corner append argument order and routing", s_corner)
+    run("mesh_data.py:_generate_face_corners/_generate_cell_corners/_generate_cell_faces (regeneration criteria, resets)", s_guards)
     run("mesh_data.py:_compute_dimensionality (if/elif chain)", s_dim)
     run("mesh.py:_instanciate_raw_mesh_data (prepare before dimensionality, max, class per value)", s_inst)
     run("datatypes/base.py:Mesh.__init__ (dim thresholds, shared containers)", s_init)
@@ -400,10 +481,11 @@ def translate_structure():
     params, bound, expr = out.get("valid", (["a", "b"], "N", "false"))
     hard = out.get("hard", {"guard": "always", "name": "", "flags_before": False, "empty_first": False})
     corner = out.get("corner", {"face": [], "cell": [], "routing": [], "cellFaceElem": "cellIndex", "cellFaceAdj": "faceId"})
+    guards = out.get("guards", {"face_corners": ("false", None), "cell_corners": ("false", "false"), "cell_faces_always": False})
     dim_rows, dim_default = out.get("dim", ([], 0))
     inst_steps, inst_table = out.get("inst", ([], []))
     init_rows = out.get("init", [])
-    b = "import Mouette.Lemmas.C02Steps\nnamespace Mouette.Generated.C02S\nopen Mouette.Prepare\n\n"
+    b = "import Mouette.Lemmas.C02Steps\nset_option linter.unusedVariables false\nnamespace Mouette.Generated.C02S\nopen Mouette.Prepare\n\n"
     b += "/-- RawMeshData.prepare: is `if self._prepared: return` the first statement; the guarded steps in source order -/\n"
     b += "def prepareProgram : PrepareProgram :=\n  { guardFirst := %s,\n    steps := [%s] }\n\n" % (
         "true" if g else "false", ", ".join(f"(Guard.{a}, Step.{s})" for a, s in steps))
@@ -419,6 +501,11 @@ def translate_structure():
     b += "def cornerAppendSlots : List Slot := [%s]\n" % ", ".join("Slot." + r for r in corner["routing"])
     b += "def cellFaceElemArg : CellFaceArg := CellFaceArg.%s\ndef cellFaceAdjArg : CellFaceArg := CellFaceArg.%s\n\n" % (
         corner["cellFaceElem"], corner["cellFaceAdj"])
+    b += "/-- when corner records are regenerated (counts: stored elements, stored owners, vertices of all faces / cells);\nthe inner test of _generate_cell_corners (`build only adjacency`); cell-face records are rebuilt unconditionally -/\n"
+    b += "def faceCornerGuard (nelem nadj total : Nat) : Bool := %s\n" % guards["face_corners"][0]
+    b += "def cellCornerGuard (nelem nadj total : Nat) : Bool := %s\n" % guards["cell_corners"][0]
+    b += "def cellCornerAdjOnlyGuard (nelem nadj total : Nat) : Bool := %s\n" % (guards["cell_corners"][1] or "false")
+    b += "def cellFacesAlwaysRebuilt : Bool := %s\n\n" % str(bool(guards["cell_faces_always"])).lower()
     b += "/-- _compute_dimensionality: (container tested non-empty, value), in order; the else value -/\n"
     b += "def dimChain : List (String × Nat) := [%s]\ndef dimDefault : Nat := %d\n\n" % (
         ", ".join(f"({_lstr(c)}, {v})" for c, v in dim_rows), dim_default)
